@@ -285,14 +285,14 @@ theorem crash_inside_constructor (cfg : Cfg) (hist : List Act) (hw : (sys cfg).W
 
 /-- **C06 (7)** Afterwards every key can be created and completed again: in every state reached by
 any history (in particular right after a crash and a restart) no operation fails on what is on disk —
-`Create` of an absent key with room succeeds, `MarkComplete` of an incomplete blob succeeds and
+`Create` of an absent key (that names a directory of its own: `cleanKey`) with room succeeds, `MarkComplete` of an incomplete blob succeeds and
 leaves it complete, `Delete` of a present key succeeds and leaves it absent. -/
 theorem recreate_afterwards (cfg : Cfg) (hist : List Act) (hw : (sys cfg).WFHist (ActPre cfg) (sys cfg).init hist)
     (m : Mem) (hm : ((sys cfg).run hist).mem = some m) (ord : Order Name) (K : Key) :
     (∀ o, OpPre cfg o → (exec cfg ord m ((sys cfg).run hist).fs o).res ≠ Res.panic ∧
         (exec cfg ord m ((sys cfg).run hist).fs o).res ≠ Res.ioExist ∧
         (exec cfg ord m ((sys cfg).run hist).fs o).res ≠ Res.ioNotExist) ∧
-    (∀ sz, ValidKey cfg K → sz < 2 ^ 63 → aget m.blobs K = none → m.size + sz ≤ cfg.capacity →
+    (∀ sz, ValidKey cfg K → cleanKey cfg K = true → sz < 2 ^ 63 → aget m.blobs K = none → m.size + sz ≤ cfg.capacity →
         (exec cfg ord m ((sys cfg).run hist).fs (Op.create K sz)).res = Res.ok ∧
         aget (exec cfg ord m ((sys cfg).run hist).fs (Op.create K sz)).mem.blobs K = some ⟨sz, false, false⟩) ∧
     (∀ b, aget m.blobs K = some b → b.complete = false →
@@ -304,9 +304,9 @@ theorem recreate_afterwards (cfg : Cfg) (hist : List Act) (hw : (sys cfg).WFHist
   have G := good_run cfg hist hw
   have gm := G.mem m hm
   refine ⟨fun o hp => (exec_ok G.fs gm ord o hp).api, ?_, ?_, ?_⟩
-  · intro sz hv hsz hb hroom
+  · intro sz hv hck hsz hb hroom
     have api := (exec_ok G.fs gm ord (Op.create K sz) (fun K' sz' e => by cases e; exact ⟨hv, hsz⟩)).api
-    simp only [exec, create, hb] at api ⊢
+    simp only [exec, hck, if_true, create, hb] at api ⊢
     -- there is room: the eviction loop returns at once
     have hev : evictLoop cfg ord sz m.queue m.blobs m.size ((sys cfg).run hist).fs [] =
         ⟨⟨m.blobs, m.queue, m.size⟩, ((sys cfg).run hist).fs, [], Res.ok⟩ := by
